@@ -688,31 +688,7 @@ func ruleC20Validator(c *Ctx) {
 // noPathAvoiding reports whether there is NO path from the entry to a return that avoids every
 // instruction matching `avoid` and every edge matching `allowed`.
 func noPathAvoiding(fn *ssa.Function, avoid func(ssa.Instruction) bool, allowed func(from, to *ssa.BasicBlock) bool) bool {
-	seen := map[*ssa.BasicBlock]bool{}
-	var dfs func(b *ssa.BasicBlock) bool
-	dfs = func(b *ssa.BasicBlock) bool {
-		if seen[b] {
-			return false
-		}
-		seen[b] = true
-		for _, in := range b.Instrs {
-			if avoid(in) {
-				return false
-			}
-		}
-		if len(b.Succs) == 0 {
-			_, isRet := b.Instrs[len(b.Instrs)-1].(*ssa.Return)
-			return isRet
-		}
-		for _, s := range b.Succs {
-			if allowed(b, s) {
-				continue
-			}
-			if dfs(s) {
-				return true
-			}
-		}
-		return false
-	}
-	return !dfs(fn.Blocks[0])
+	ps := &pathSearch{fn: fn, start: fn.Blocks[0], stop: avoid, skipEdge: allowed}
+	ps.atReturn = func(r *ssa.Return, k knowMap) bool { return true }
+	return !ps.run()
 }
